@@ -6,6 +6,7 @@ import BoxoModel.C33.Model
   rp  <seghex>:<hashhex> ...       → `ok <cid>` | `err`
   rpc <seghex>:<hashhex> ...       → `n=<matched nodes>`
   build <recipe>                   → `ok` (recipe is for the Go side only)
+  mode remote <fill>               → `ok` (block source of the Go side; resolution must not depend on it)
 
   <node>  ::= f <cid> | s <cid> | d <cid> <n> (<namehex> <node>)^n | h <cid> <fanout> <bfhex> <shard>
   <shard> ::= <n> (<slot>)^n
@@ -113,6 +114,7 @@ def step (st : St) (line : String) : St × String :=
   match (line.trimAscii.toString.splitOn " ").filter (· ≠ "") with
   | ["case", n] => ({}, s!"case {n}")
   | ["end"] => ({}, "end")
+  | "mode" :: _ => (st, "ok")    -- where the blocks come from (local / remote exchange): invisible to the model
   | "build" :: _ => (st, "ok")
   | "tree" :: ts =>
     match parseNode ts with
